@@ -1,7 +1,7 @@
 (* C02 — Intra pictures reconstruct exactly as H.263 prescribes.
    Proved so far (the composition over whole pictures is tied by execution against the
    reference reconstruction, see DESIGN.md): *)
-From H263V Require Import base.Prelude spec.SpecRecon model.Types model.Tables model.Syntax model.Recon model.Decoder proofs.ReconSpec.
+From H263V Require Import base.Prelude spec.SpecRecon model.Types model.Tables model.Syntax model.Recon model.Decoder proofs.ReconSpec proofs.RlePlacement.
 
 (* every coefficient: sign(L) (Q (2|L|+1) - [Q even]) saturated to -2048..2047, for every quantizer and level *)
 Theorem C02_dequant_exact : forall q level, 0 <= q -> dequant q level = spec_dequant q level.
@@ -17,6 +17,27 @@ Theorem C02_intradc_levels : forall c, 0 <= c <= 255 ->
   (forall d, intradc_from_u8 c = Some d -> d = c /\ intradc_level d = if c =? 255 then 1024 else 8 * c).
 Proof. exact intradc_spec. Qed.
 
+(* run-length expansion of a whole block, for every sequence of (run, level) events, every quantizer and with or
+   without INTRADC: the k-th event lands on the cell the zig-zag scan gives to position (previous position + run),
+   carrying the dequantised level; every other cell keeps its value (zero, or the INTRADC level at (0,0)); a run past
+   position 63 abandons the block (`place_spec` = None <-> `inverse_rle_block` = None); and the block is classified
+   zero / DC / first row / first column / full exactly by which cells of that matrix are non-zero (`classify`). *)
+Theorem C02_block_placement : forall b q, 0 <= q -> Forall (fun t => 0 <= t_run t) (tcoefs b) ->
+  match inverse_rle_block b q with
+  | Some d =>
+      exists m' f', shape8 m' /\ place_spec (tcoefs b) q (start_zz (intradc b)) (start_fun (intradc b)) = Some f' /\
+                    (forall x y, 0 <= x < 8 -> 0 <= y < 8 -> mat_get m' x y = f' x y) /\ d = classify m'
+  | None => place_spec (tcoefs b) q (start_zz (intradc b)) (start_fun (intradc b)) = None
+  end.
+Proof. exact inverse_rle_block_spec. Qed.
+
+(* non-vacuity: INTRADC 100, then events (run 1, level 3) and (run 0, level -2) at quantizer 4: cells (0,0), (0,1), (0,2) *)
+Example C02_block_placement_example :
+  inverse_rle_block (mkBlock (Some 100) [mkTcoef true 1 3; mkTcoef true 0 (-2)]) 4
+  = Some (DctVert [800; 27; -19; 0; 0; 0; 0; 0]).
+Proof. vm_compute. reflexivity. Qed.
+
 Print Assumptions C02_dequant_exact.
+Print Assumptions C02_block_placement.
 Print Assumptions C02_zigzag_is_antidiagonal_walk.
 Print Assumptions C02_intradc_levels.
